@@ -197,6 +197,10 @@ func suitesFor(prop string) []Suite {
 		return []Suite{cmdSuite("remote", func(r *Rng, i int, tier string) []Op { return genRemoteCase(r) }, 120, 2000, postRemote)}
 	case "C18":
 		return []Suite{cmdSuite("view", func(r *Rng, i int, tier string) []Op { return genViewCase(r) }, 240, 4000, postView)}
+	case "C13":
+		return []Suite{{Name: "lock", Custom: lockSuite}}
+	case "C17":
+		return []Suite{{Name: "race", Custom: raceSuite}}
 	case "C20":
 		return []Suite{cmdSuite("generate", func(r *Rng, i int, tier string) []Op { return genGenerateCase(r) }, 60, 1500, postAny)}
 	case "C16":
@@ -218,8 +222,12 @@ func suitesFor(prop string) []Suite {
 }
 
 func runChildOther(role string, args []string) bool {
-	if role == "server" {
+	switch role {
+	case "server":
 		runServerChild(args)
+		return true
+	case "lockworker":
+		runLockWorker(args)
 		return true
 	}
 	return false
